@@ -325,6 +325,14 @@ func generate(family string, n int, seed uint64, out *bufio.Writer) {
 			genEncOp(r, gcfg, p)
 		}
 	case "hacc":
+		// the Critical accessor under every Go integer spelling of label 2 (and of the labels it lists)
+		for _, sp := range []string{"i64", "i", "i8", "i16", "i32", "u", "u8", "u16", "u32", "u64"} {
+			p("hacc {i64:1=a:-8,%s:2=[i64:4],i64:4=b:6b} s:612f62 {}", sp)
+			p("hacc {%s:1=a:-8,%s:2=[%s:4],%s:4=b:6b} s:612f62 {}", sp, sp, sp, sp)
+			p("hacc {i64:1=a:-8,%s:2=[i64:99],i64:4=b:6b} s:612f62 {}", sp)
+			p("hacc {i64:1=a:-8,%s:2=[]} s:612f62 {}", sp)
+		}
+		p("hacc {i64:1=a:-8,i64:4=b:6b} s:612f62 {}")
 		for i := 0; i < n; i++ {
 			h := randHeaders(r, gcfg)
 			typ := randAny(r, gcfg, 1)
